@@ -85,6 +85,15 @@ def outbound(case, res):
                     S.request(own, "change", {"path": "s", "value": "m" * rng.choice([1, 10, wbuf // 3])}).expect_override = "any"
                 S.settle()
             S.sim.wpol(sub.fd, budget=-1, cap=-1)
+            rest = b""
+            if rng.random() < 0.5:
+                # the socket turns writable and readable in ONE event: the first bytes of a message that is not complete yet
+                # (nothing to answer on this connection) arrive together with the writability edge
+                full = S.frame_for(sub, json.dumps({"id": S.next_id(sub), "method": "info"}).encode())
+                k = rng.choice([1, 2, 3, 5, len(full) - 1])
+                S.send_bytes(sub, full[:k])
+                rest = full[k:]
+                S.sig("writable-and-readable-together", t)
             S.settle()
             S.settle()
             S.stats["policies"] += 1
@@ -94,6 +103,9 @@ def outbound(case, res):
             if bytes(sub.wire) != bytes(sub.expected_wire):
                 S.v("wire/stream-differs-from-generated-frames", "after refill: wire %d bytes, generated %d bytes (policy %r)" % (len(sub.wire), len(sub.expected_wire), (b0, cap, sizes, cont)))
                 break
+            if rest:
+                S.send_bytes(sub, rest)
+                S.settle()
             sub.healthy = True
         spin_check(S, alltrace)
         S.stats["eagain_results"] += sum(1 for w in allw if w[2] == -errno.EAGAIN)
